@@ -1,11 +1,27 @@
+#[cfg(not(metrics_verif))]
 use crossbeam_epoch::{pin as epoch_pin, Atomic, Guard, Owned, Shared};
+#[cfg(not(metrics_verif))]
 use crossbeam_utils::Backoff;
+#[cfg(not(metrics_verif))]
 use std::{
     cell::UnsafeCell,
     cmp::min,
     mem::{self, MaybeUninit},
     slice,
     sync::atomic::{AtomicUsize, Ordering},
+};
+#[cfg(metrics_verif)]
+use crate::verif_shim::{Atomic, Backoff};
+#[cfg(metrics_verif)]
+use crossbeam_epoch::{pin as epoch_pin, Guard, Owned, Shared};
+#[cfg(metrics_verif)]
+use metrics::verif::atomic::{AtomicUsize, Ordering};
+#[cfg(metrics_verif)]
+use std::{
+    cell::UnsafeCell,
+    cmp::min,
+    mem::{self, MaybeUninit},
+    slice,
 };
 
 #[cfg(target_pointer_width = "16")]
@@ -137,6 +153,10 @@ unsafe impl<T: Sync> Sync for Block<T> {}
 
 impl<T> Drop for Block<T> {
     fn drop(&mut self) {
+        #[cfg(metrics_verif)]
+        while !self.is_quiesced() {
+            metrics::verif::spin();
+        }
         while !self.is_quiesced() {}
 
         // SAFETY:
